@@ -72,6 +72,15 @@ def _validate_valid_identifiers(nodes: dict[str, HyperNode]) -> None:
 
     for node in nodes.values():
         # GraphNode names use graph name validation (allows hyphens); its outputs are still checked
+        if isinstance(node, GraphNode):
+            # ... which with_name() does not go through: '.' and '/' address nested nodes
+            if not node.name or "." in node.name or "/" in node.name:
+                raise GraphConfigError(
+                    f"Invalid graph node name: '{node.name}'\n\n"
+                    f"  -> Names of nested-graph nodes cannot be empty or contain '.' or '/'\n\n"
+                    f"How to fix:\n"
+                    f"  Use underscores or hyphens instead"
+                )
         if not isinstance(node, GraphNode):
             if not node.name.isidentifier():
                 raise GraphConfigError(
